@@ -60,21 +60,53 @@ fn compute_error_case<const N: usize, const K: usize>(coefs: [i16; K]) -> bool {
 //@ prop: C01
 //@ also: C10
 //@ drives: lpc::compute_error, lpc::compute_error_impl::<i32,64> and ::<i64,64> (the overflow fallback), arrayutils::unaligned_map_and_update, arrayutils::find_max_abs
-//@ bound: 5 samples, every 25-bit sample value, every shift 0..=15, precision 15; coefficient vectors (3,-1) [32-bit path], (16383,-16384) [extreme 15-bit coefficients: 64-bit fallback path], (1) and (-16384) (symbolic x symbolic products stall SAT, so coefficients are concrete per path); error buffer with arbitrary previous content
+//@ bound: 5 samples, every 25-bit sample value, every shift 0..=15, precision 15; concrete coefficient vector (3,-1) [32-bit path] (symbolic x symbolic products stall SAT, so coefficients are concrete per harness); error buffer with arbitrary previous content
 //@ assumes: the true LPC residual of every sample fits in i32 (DESIGN.md 4.4: whether the float analysis can produce coefficients violating this is outside the claim)
 //@ asserts: errors[t] = signal[t] - (sum coef_j*signal[t-1-j] >> shift) computed in 64 bits for every t >= order (so the RFC decoder restores the signal), zero in the warm-up region, no overflow panic, independent of the buffer's previous content
 #[kani::proof]
 #[kani::unwind(70)]
-fn c01_qlpc_residual_both_paths() {
-    let sel: u8 = kani::any();
-    let c = match sel {
-        0 => compute_error_case::<5, 2>([3, -1]),
-        1 => compute_error_case::<5, 2>([16383, -16384]),
-        2 => compute_error_case::<5, 1>([1]),
-        _ => compute_error_case::<5, 1>([-16384]),
-    };
-    kani::cover!(c && sel == 1);
-    kani::cover!(c && sel == 0);
+fn c01_qlpc_residual_i32_path() {
+    let c = compute_error_case::<5, 2>([3, -1]);
+    kani::cover!(c);
+}
+
+//@ prop: C01
+//@ also: C10
+//@ drives: lpc::compute_error, lpc::compute_error_impl::<i32,64> and ::<i64,64> (the overflow fallback), arrayutils::unaligned_map_and_update, arrayutils::find_max_abs
+//@ bound: 5 samples, every 25-bit sample value, every shift 0..=15, precision 15; concrete coefficient vector (16383,-16384) [extreme 15-bit coefficients: 64-bit fallback path] (symbolic x symbolic products stall SAT, so coefficients are concrete per harness); error buffer with arbitrary previous content
+//@ assumes: the true LPC residual of every sample fits in i32 (DESIGN.md 4.4: whether the float analysis can produce coefficients violating this is outside the claim)
+//@ asserts: errors[t] = signal[t] - (sum coef_j*signal[t-1-j] >> shift) computed in 64 bits for every t >= order (so the RFC decoder restores the signal), zero in the warm-up region, no overflow panic, independent of the buffer's previous content
+#[kani::proof]
+#[kani::unwind(70)]
+fn c01_qlpc_residual_i64_fallback() {
+    let c = compute_error_case::<5, 2>([16383, -16384]);
+    kani::cover!(c);
+}
+
+//@ prop: C01
+//@ also: C10
+//@ drives: lpc::compute_error, lpc::compute_error_impl::<i32,64> and ::<i64,64> (the overflow fallback), arrayutils::unaligned_map_and_update, arrayutils::find_max_abs
+//@ bound: 5 samples, every 25-bit sample value, every shift 0..=15, precision 15; concrete coefficient vector (1) [order 1] (symbolic x symbolic products stall SAT, so coefficients are concrete per harness); error buffer with arbitrary previous content
+//@ assumes: the true LPC residual of every sample fits in i32 (DESIGN.md 4.4: whether the float analysis can produce coefficients violating this is outside the claim)
+//@ asserts: errors[t] = signal[t] - (sum coef_j*signal[t-1-j] >> shift) computed in 64 bits for every t >= order (so the RFC decoder restores the signal), zero in the warm-up region, no overflow panic, independent of the buffer's previous content
+#[kani::proof]
+#[kani::unwind(70)]
+fn c01_qlpc_residual_order1_unit() {
+    let c = compute_error_case::<5, 1>([1]);
+    kani::cover!(c);
+}
+
+//@ prop: C01
+//@ also: C10
+//@ drives: lpc::compute_error, lpc::compute_error_impl::<i32,64> and ::<i64,64> (the overflow fallback), arrayutils::unaligned_map_and_update, arrayutils::find_max_abs
+//@ bound: 5 samples, every 25-bit sample value, every shift 0..=15, precision 15; concrete coefficient vector (-16384) [order 1, most negative 15-bit coefficient] (symbolic x symbolic products stall SAT, so coefficients are concrete per harness); error buffer with arbitrary previous content
+//@ assumes: the true LPC residual of every sample fits in i32 (DESIGN.md 4.4: whether the float analysis can produce coefficients violating this is outside the claim)
+//@ asserts: errors[t] = signal[t] - (sum coef_j*signal[t-1-j] >> shift) computed in 64 bits for every t >= order (so the RFC decoder restores the signal), zero in the warm-up region, no overflow panic, independent of the buffer's previous content
+#[kani::proof]
+#[kani::unwind(70)]
+fn c01_qlpc_residual_order1_min() {
+    let c = compute_error_case::<5, 1>([-16384]);
+    kani::cover!(c);
 }
 
 //@ prop: C10
@@ -97,4 +129,39 @@ fn c10_window_cache_key_is_injective() {
     }
     kani::cover!(ka == kb);
     kani::cover!(ka != kb);
+}
+
+//@ prop: C02
+//@ also: C01
+//@ drives: lpc::find_shift::<f64>, lpc::quantize_parameter::<f64>, lpc::quantize_parameters::<f64> (integer post-processing after the float scaling: clamp of the shift, clamp of every coefficient to the precision, trailing-zero trimming), QuantizedParameters::from_parts
+//@ bound: 1..=2 arbitrary finite f64 coefficients (also subnormal, huge, zero), every precision 1..=15; the float primitives (log2, ceil, powi, round) are whatever CBMC makes of them - where Kani models them as unconstrained the result is an over-approximation, which is sound for this post-condition
+//@ asserts: what the LPC subframe header can carry (RFC 9639 9.2.6): shift in 0..=15 (5-bit field, never negative), precision as requested, predictor order 1..=number of coefficients, every quantised coefficient representable in `precision` bits two's complement
+#[kani::proof]
+#[kani::unwind(40)]
+fn c02_quantized_parameters_fit_the_subframe_header() {
+    let precision: usize = kani::any();
+    kani::assume(precision >= 1 && precision <= 15);
+    let c0: f64 = kani::any();
+    let c1: f64 = kani::any();
+    kani::assume(c0.is_finite() && c1.is_finite());
+    let two: bool = kani::any();
+    let arr = [c0, c1];
+    let coefs: &[f64] = if two { &arr[..] } else { &arr[..1] };
+    let shift = find_shift(coefs, precision);
+    assert!(shift >= 0 && shift <= 15);
+    let qps = quantize_parameters(coefs, precision);
+    assert!(qps.shift() >= 0 && qps.shift() <= 15);
+    assert!(qps.precision() == precision);
+    assert!(qps.order() >= 1 && qps.order() <= coefs.len());
+    let lim = 1i32 << (precision - 1);
+    let q = qps.coefs();
+    let mut i = 0;
+    while i < q.len() {
+        assert!((q[i] as i32) >= -lim && (q[i] as i32) < lim);
+        i += 1;
+    }
+    kani::cover!(two && qps.order() == 1);
+    kani::cover!(shift == 15);
+    kani::cover!(shift == 0);
+    std::mem::forget(qps);
 }
